@@ -142,11 +142,7 @@ Section Proofs.
   Lemma reg_leaf_prim_normal f v :
     vset re_match [] f v = Ok v -> reg_leaf re_match sdeser (LPrim f) v = Ok v.
   Proof.
-    intro H. destruct f; cbn [reg_leaf]; try exact H.
-    destruct (empty_container v) eqn:E; [|exact H].
-    destruct v as [| | | |l| | | |kv| | |]; try discriminate E.
-    - destruct l; [|discriminate E]. vm_compute in H. discriminate H.
-    - destruct kv; [|discriminate E]. vm_compute in H. discriminate H.
+    intro H. destruct f; cbn [reg_leaf]; exact H.
   Qed.
 
   Lemma collect_flat dc dc0 c kv doc : forall fs,
